@@ -202,9 +202,10 @@ func (w *world) modelOpen(c *call, owner string, leaf *countLeaf, fh []byte, acc
 	if o := inc.opens[key]; o != nil {
 		// RFC 8881 section 8.2.2: same owner and file => same state ID
 		// with the next sequence ID.
-		if other != o.other || sid.Seqid != o.seq+1 {
-			w.failf("C18: OPEN by %s of a file it already has open returned %s, expected sid(%d,#%d)", o, fmtSID(sid), o.seq+1, o.other)
+		if other != o.other || sid.Seqid != nextSeqID(o.seq) {
+			w.failf("C18: OPEN by %s of a file it already has open returned %s, expected sid(%d,#%d)", o, fmtSID(sid), nextSeqID(o.seq), o.other)
 		}
+		w.noteSeqIDBump(o.seq, sid.Seqid, "open")
 		o.seq = sid.Seqid
 		if acc&^o.access != 0 {
 			w.label("upgrade")
@@ -264,6 +265,14 @@ func (w *world) tClose(inc *incM, fh []byte, sid nfsv4.Stateid4, how string) *tm
 	return t
 }
 
+// noteSeqIDBump labels a state ID whose seqid went from 2^32-1 to 1.
+func (w *world) noteSeqIDBump(before, after uint32, op string) {
+	if after < before {
+		w.label("stateid_seqid_wrapped")
+		w.label("stateid_seqid_wrapped_by:" + op)
+	}
+}
+
 func (w *world) noteRejection(op, how string, st nfsv4.Nfsstat4) {
 	if how != "cur" && how != "seq0" && st != nfsv4.NFS4_OK {
 		w.label("stateid_rejected:" + how)
@@ -303,9 +312,10 @@ func (w *world) tDowngrade(inc *incM, fh []byte, sid nfsv4.Stateid4, how string,
 		o := t.data["o"].(*openM)
 		got := res[1].(*nfsv4.NfsResop4_OP_OPEN_DOWNGRADE).OpopenDowngrade.(*nfsv4.OpenDowngrade4res_NFS4_OK).Resok4.OpenStateid
 		other, _ := stateIDOther(&got)
-		if other != o.other || !(got.Seqid == o.seq+1 || (got.Seqid == o.seq && acc == o.access)) {
-			w.failf("C18: OPEN_DOWNGRADE of %s returned %s, expected sid(%d,#%d)", o, fmtSID(got), o.seq+1, o.other)
+		if other != o.other || !(got.Seqid == nextSeqID(o.seq) || (got.Seqid == o.seq && acc == o.access)) {
+			w.failf("C18: OPEN_DOWNGRADE of %s returned %s, expected sid(%d,#%d)", o, fmtSID(got), nextSeqID(o.seq), o.other)
 		}
+		w.noteSeqIDBump(o.seq, got.Seqid, "open_downgrade")
 		if acc != o.access {
 			w.label("downgrade")
 		} else {
@@ -525,9 +535,10 @@ func (w *world) tLock(inc *incM, fh []byte, newOwner bool, sid nfsv4.Stateid4, h
 				w.failf("C18: LOCK returned malformed state ID %s", fmtSID(got))
 			}
 			if l != nil {
-				if other != l.other || got.Seqid != l.seq+1 {
-					w.failf("C18: LOCK through existing %s returned %s, expected sid(%d,#%d)", l, fmtSID(got), l.seq+1, l.other)
+				if other != l.other || got.Seqid != nextSeqID(l.seq) {
+					w.failf("C18: LOCK through existing %s returned %s, expected sid(%d,#%d)", l, fmtSID(got), nextSeqID(l.seq), l.other)
 				}
+				w.noteSeqIDBump(l.seq, got.Seqid, "lock")
 				l.seq = got.Seqid
 			} else {
 				if _, dup := inc.byOther[other]; dup {
@@ -632,9 +643,10 @@ func (w *world) tLockU(inc *incM, fh []byte, sid nfsv4.Stateid4, how string, r l
 		l := t.data["l"].(*lockM)
 		got := res[1].(*nfsv4.NfsResop4_OP_LOCKU).Oplocku.(*nfsv4.Locku4res_NFS4_OK).LockStateid
 		other, _ := stateIDOther(&got)
-		if other != l.other || got.Seqid != l.seq+1 {
-			w.failf("C18: LOCKU through %s returned %s, expected sid(%d,#%d)", l, fmtSID(got), l.seq+1, l.other)
+		if other != l.other || got.Seqid != nextSeqID(l.seq) {
+			w.failf("C18: LOCKU through %s returned %s, expected sid(%d,#%d)", l, fmtSID(got), nextSeqID(l.seq), l.other)
 		}
+		w.noteSeqIDBump(l.seq, got.Seqid, "locku")
 		l.seq = got.Seqid
 		w.applyLock(l.open.leaf, l.ownerKey(), t.data["lo"].(int), t.data["hi"].(int), 0)
 		w.markProbe(l.open.leaf, "locku")
